@@ -427,7 +427,7 @@ class Driver:
                 if spec.get('target') is not None:
                     s = ex.call(f'{ap}::target', [s, Ref(Cell(self.keys[spec['target']]))])
             elif step == 'transpose':
-                if spec.get('transpose'):
+                for _ in range(int(spec.get('transpose') or 0)):       # a number = that many transpose() calls
                     s = ex.call(f'{ap}::transpose', [s])
             elif step == 'method':
                 if clo is not None:
@@ -473,8 +473,9 @@ class Driver:
         mf = bool(spec.get('method_first'))       # the closure is attached before transpose() / pre() / post()
         if self.directed:
             s = self.node_call('preorder' if spec['kind'] == 'pre' else 'postorder', [root])
-            if spec.get('transpose') and not mf:
-                s = ex.call(f'{ap}::transpose', [s])
+            if not mf:
+                for _ in range(int(spec.get('transpose') or 0)):
+                    s = ex.call(f'{ap}::transpose', [s])
         else:
             s = self.node_call('order', [root])
             if not mf:
@@ -485,7 +486,7 @@ class Driver:
             s = ex.call(f"{ap}::{'filter' if spec['method'] == 'filter' else 'for_each'}", [s, clo])
         if mf:
             if self.directed:
-                if spec.get('transpose'):
+                for _ in range(int(spec.get('transpose') or 0)):
                     s = ex.call(f'{ap}::transpose', [s])
             else:
                 s = ex.call(f"{ap}::{spec['kind']}", [s])
